@@ -75,7 +75,7 @@ func runC20(r *h.Run) {
 
 	opNames := []string{"Start", "Client", "Protocol", "NegotiatedVersion", "ReattachConfig", "ID", "Exited", "Dispense", "Call", "HostNextId", "PluginNextId", "PairH2P", "PairP2H", "Ping",
 		// brokers get extra weight: most of the shared mutable state lives there
-		"PairH2P", "PairP2H", "HostNextId", "PluginNextId", "Dispense", "PairH2P", "PairP2H"}
+		"PairH2P", "PairP2H", "HostNextId", "PluginNextId", "Dispense", "PairH2P", "PairP2H", "HostAcceptNoDial", "PluginAcceptNoDial", "HostDialNoAccept"}
 	// every run begins with a connected client and ends with an ID burst
 	if o := r.Do("warmup", 120*time.Second, func() (any, error) {
 		cp, err := cl.Client()
@@ -168,6 +168,20 @@ func runC20(r *h.Run) {
 							pluginIDs[fmt.Sprintf("%d/%s", c20BrokerKey(cmd), v)]++
 							mu.Unlock()
 						}
+					case "HostAcceptNoDial":
+						// an accept nobody dials: it sits in the broker for its whole timeout
+						id := nextPair()
+						h.HostAcceptWait(r, cmd, id)
+					case "PluginAcceptNoDial":
+						id := nextPair()
+						if _, ok := cmd.(*plugins.RPCClient); ok {
+							cmd.Do("acceptwait", fmt.Sprint(id))
+						} else {
+							cmd.Do("accept", fmt.Sprint(id))
+						}
+					case "HostDialNoAccept":
+						id := nextPair()
+						h.HostDialEcho(cmd, id, 10)
 					case "PairH2P":
 						id := nextPair()
 						cmd.Do("accept", fmt.Sprint(id))
